@@ -191,7 +191,7 @@ fn push_any(path: &mut Path, kind: u8) {
         }
         1 => {
             let len: u8 = kani::any();
-            kani::assume(len >= 1 && len <= 3);
+            kani::assume(len >= 1 && len as usize <= MAX_ATOMIC_HISTORY);
             let pos: u8 = kani::any();
             kani::assume(pos < len);
             let mut values = [0u8; MAX_ATOMIC_HISTORY];
@@ -335,7 +335,7 @@ vharness! {
 }
 
 vharness! {
-    /// @prop C14,C01,C19 @tier quick @mode fast @cost 2 @funcs Path::step @bounds depth 2, kinds [load,spurious], load length 1..3
+    /// @prop C14,C01,C19 @tier quick @mode fast @cost 2 @funcs Path::step @bounds depth 2, kinds [load,spurious], load length 1..7
     /// DFS step: load entries advance to the next candidate, spurious entries flip once; exhausted/non-exploring entries are popped.
     #[cfg_attr(kani, kani::unwind(8))]
     fn path_step_lp() { step_case([1, 2]) }
@@ -795,4 +795,10 @@ pub(crate) fn thread_code_at(path: &Path, index: usize, t: usize) -> u8 {
         k += 1;
     }
     r
+}
+
+/// Replays the recorded decisions from the start (used when a harness issues a
+/// second operation and the stack has no room for a new decision).
+pub(crate) fn rewind(path: &mut Path) {
+    path.pos = 0;
 }
